@@ -174,11 +174,25 @@ func TestVerifReplay(t *testing.T) {
 		casesFile := filepath.Join(tmp, "cases.json")
 		os.WriteFile(casesFile, cb, 0644)
 		total := time.Duration(len(batch))*perCaseTimeout + 120*time.Second
-		cmd := exec.Command("go", "test", "-v", "-vet=off", "-count=1", "-overlay", ovFile,
-			"-run", "^TestVerifReplay$", "-timeout", fmt.Sprintf("%ds", int(total.Seconds())), "./"+pd)
+		argv := []string{"test", "-v", "-vet=off", "-count=1", "-overlay", ovFile,
+			"-run", "^TestVerifReplay$", "-timeout", fmt.Sprintf("%ds", int(total.Seconds()))}
+		race := false
+		for _, c := range batch {
+			if strings.HasPrefix(c.Harness, "H_C11_") {
+				race = true // lock-discipline findings are confirmed under the Go race detector
+			}
+		}
+		if race {
+			argv = append(argv, "-race")
+		}
+		argv = append(argv, "./"+pd)
+		cmd := exec.Command("go", argv...)
 		cmd.Dir = repo
 		cmd.Env = append(os.Environ(), "GOFLAGS=-mod=mod", "GOPROXY=off", "GOSUMDB=off", "GOTOOLCHAIN=local",
 			"GOSYM_CASES="+casesFile)
+		if race {
+			cmd.Env = append(cmd.Env, "CGO_ENABLED=1")
+		}
 		out, _ := cmd.CombinedOutput()
 		// parse
 		sc := bufio.NewScanner(bytes.NewReader(out))
@@ -239,6 +253,14 @@ func TestVerifReplay(t *testing.T) {
 		}
 		if !sawAny {
 			return nil, fmt.Errorf("native replay did not run (build failure?):\n%s", tail(string(out), 3000))
+		}
+		if race && (strings.Contains(string(out), "DATA RACE") || strings.Contains(string(out), "concurrent map")) {
+			for k := range batch {
+				if results[start+k].Outcome == "pass" || results[start+k].Outcome == "" {
+					results[start+k].Outcome = "race"
+					results[start+k].Msg = "Go race detector: DATA RACE / concurrent map access"
+				}
+			}
 		}
 		if finished < began {
 			// the process died inside case 'began' (e.g. a panic in a background goroutine)
